@@ -88,7 +88,7 @@ def run_c06(tier, seed, out):
     drive_validate(out, "C06", HV_CORE, "arp-drive", "TraceArp", ["--runs", "800" if tier == "quick" else "12000"], tier, seed,
                    "resolution scenarios")
     out.cov["rule"] = ("2-6 machines claiming 0-2 addresses, byte-aligned subnet masks /0../32 with claimed and unclaimed gateways, 1-6 resolve calls "
-                       "(concurrent, repeated, own address, unclaimed address) at 0 / 0.15 / 0.5 / 1.9 / 2.1 s, latency 0/1/5 ms, ARP frame loss 0/30/60/85 %; "
+                       "(concurrent, repeated, own address, unclaimed address) at 0 / 0.15 / 0.5 / 1.9 / 2.1 s, latency 0/1/5 ms, ARP frame loss 0/30/60/85 % or an exact plan (only the k-th request of a resolver passes, k = 1, 2, 9, 10, none); "
                        "distinct counted as runs")
     out.cov["distinct_nontrivial"] = max(out.cov["distinct_nontrivial"], out.cov["traces_validated_against_impl"])
 
